@@ -32,11 +32,31 @@ def call_attr_at(code, offset):
     return m[1].get(offset)
 
 
+def loop_template(tape):
+    """A thread that goes round a loop, re-creating its managers every time and
+    parking at the same instruction: the state in which a stale f_lasti check is
+    not enough (value-stack slots of two iterations)."""
+    n = 2 + tape.choose(3)
+    items = ", ".join("W.m(F, %d, 'S', (), (), 0, 0)" % k for k in range(n))
+    lines = [
+        "def f0(W):",
+        "    F = W.frame('f0')",
+        "    for i0 in range(%d):" % (4 + tape.choose(8)),
+        "        with %s:" % items,
+        "            W.rel(); W.acq()",
+    ]
+    if tape.choose(2):
+        lines.append("            W.rel(); W.acq()")
+    if tape.choose(3) == 0:
+        lines.append("    W.rel(); W.acq()")
+    return "\n".join(lines) + "\n"
+
+
 class Target(object):
-    def __init__(self, ctx, name, force=None):
+    def __init__(self, ctx, name, force=None, text=None):
         f = {"only_sync": True, "park": True, "probe": True, "asyncmgr": False, "call": True}
         f.update(force or {})
-        self.b = driver.build(ctx, f, "sync")
+        self.b = driver.build(ctx, f, "sync", text=text)
         self.W = self.b.W
         self.name = name
         self.go = threading.Lock()
